@@ -214,6 +214,59 @@ pub fn check_build(flags: u16, opcode: u8, rcode: u16, id: u16, n: [usize; 4]) -
         p.additional.push(r.clone());
     }
     let mut out = Vec::new();
+    // the same header through writers that accept only a few bytes per call, and into fixed buffers
+    {
+        struct Drip {
+            buf: std::io::Cursor<Vec<u8>>,
+            n: usize,
+        }
+        impl std::io::Write for Drip {
+            fn write(&mut self, b: &[u8]) -> std::io::Result<usize> {
+                let k = b.len().min(self.n);
+                std::io::Write::write(&mut self.buf, &b[..k])
+            }
+            fn flush(&mut self) -> std::io::Result<()> {
+                Ok(())
+            }
+        }
+        impl std::io::Seek for Drip {
+            fn seek(&mut self, p: std::io::SeekFrom) -> std::io::Result<u64> {
+                std::io::Seek::seek(&mut self.buf, p)
+            }
+        }
+        let r = guarded(|| -> Result<Vec<(String, String)>, String> {
+            let l = to_lib(&p)?;
+            let reference = l.build_bytes_vec().map_err(|e| format!("{:?}", e))?;
+            let mut bad = Vec::new();
+            for chunk in [1usize, 2, 3, 5, 11, 12, 13] {
+                for compressed in [false, true] {
+                    let mut w = Drip { buf: std::io::Cursor::new(Vec::new()), n: chunk };
+                    let res = if compressed { l.write_compressed_to(&mut w) } else { l.write_to(&mut w) };
+                    let got = w.buf.into_inner();
+                    if res.is_err() || got.len() < 12 || got[..12] != reference[..12] {
+                        bad.push(("drip-writer".to_string(), format!("writer accepting {} bytes per call ({}): header {} expected {}", chunk, if compressed { "compressed" } else { "plain" }, crate::engine::hex(&got[..got.len().min(12)]), crate::engine::hex(&reference[..12]))));
+                    }
+                }
+            }
+            for cap in 0..12usize {
+                let mut buf = vec![0u8; cap];
+                let mut cur = std::io::Cursor::new(&mut buf[..]);
+                if l.write_to(&mut cur).is_ok() {
+                    bad.push(("short-buffer-ok".to_string(), format!("{}-byte buffer: header written 'successfully'", cap)));
+                }
+            }
+            Ok(bad)
+        });
+        match r {
+            Err(pn) => out.push(finding(format!("C08|build|{}", pn.sig()), format!("{:?}", pn), case.clone())),
+            Ok(Err(e)) => out.push(finding("C08|build|error", e, case.clone())),
+            Ok(Ok(bad)) => {
+                for (t, d) in bad {
+                    out.push(finding(format!("C08|build|{}", t), d, case.clone()));
+                }
+            }
+        }
+    }
     let res = guarded(|| to_lib(&p).and_then(|l| l.build_bytes_vec().map_err(|e| format!("{:?}", e))));
     match res {
         Err(pn) => out.push(finding(format!("C08|build|{}", pn.sig()), format!("{:?}", pn), case)),
